@@ -159,6 +159,30 @@ pub fn generic_alphabet() -> Vec<Pres> {
 	a.push(Pres::Tuple(vec![Pres::I64(1), Pres::I64(2), Pres::I64(3)]));
 	a.push(Pres::Seq { len: None, elems: vec![Pres::U32(5), Pres::U32(6), Pres::U32(7)] });
 	a.push(Pres::TupleStruct("zz", vec![Pres::U32(1), Pres::U32(2), Pres::U32(3)]));
+	// elements of every integer width, inside and outside the u8 / u32 ranges (sequences offered to
+	// bytes / fixed / duration nodes convert each element)
+	for x in [0x41i128, 255, 256, -1, 1 << 33] {
+		let widths: Vec<Pres> = vec![
+			i8::try_from(x).ok().map(Pres::I8),
+			i16::try_from(x).ok().map(Pres::I16),
+			i32::try_from(x).ok().map(Pres::I32),
+			i64::try_from(x).ok().map(Pres::I64),
+			Some(Pres::I128(x)),
+			u8::try_from(x).ok().map(Pres::U8),
+			u16::try_from(x).ok().map(Pres::U16),
+			u32::try_from(x).ok().map(Pres::U32),
+			u64::try_from(x).ok().map(Pres::U64),
+			u128::try_from(x).ok().map(Pres::U128),
+		]
+		.into_iter()
+		.flatten()
+		.collect();
+		for w in widths {
+			a.push(Pres::seq(vec![Pres::U8(7), w.clone()]));
+			a.push(Pres::Tuple(vec![w.clone(), Pres::U32(2), w.clone()]));
+			a.push(Pres::Seq { len: None, elems: vec![w; 4] });
+		}
+	}
 	a.push(Pres::TupleStruct("zz", vec![Pres::I32(1)]));
 	a.push(Pres::TupleVariant { name: "E", idx: 0, variant: "Array", elems: vec![Pres::I32(1), Pres::I32(2)] });
 	a.push(Pres::TupleVariant { name: "E", idx: 0, variant: "zz", elems: vec![Pres::I64(1)] });
@@ -241,6 +265,9 @@ fn node_schemas(n: &mut Names) -> Vec<RSchema> {
 	v.push(S::Union(vec![S::Null, S::fixed(&n.fresh("Fx"), 2)]));
 	v.push(S::Union(vec![S::Null, S::decimal_bytes(10, 0), S::String]));
 	v.push(S::Union(vec![S::Null, S::decimal_fixed(&n.fresh("Dec"), 2, 4, 0)]));
+	// decimals over a fixed wider than the 16 bytes the crate computes with: the encoder pads with the sign
+	v.push(S::decimal_fixed(&n.fresh("Dec"), 17, 38, 0));
+	v.push(S::decimal_fixed(&n.fresh("ns.Dec"), 20, 40, 2));
 	v.push(S::Union(vec![S::Null, S::Boolean, S::Int, S::Long, S::Float, S::Double, S::Bytes, S::String]));
 	v.extend(gen::special_unions(n));
 	v
